@@ -497,3 +497,108 @@ def domain_points(lo, hi):
     for k in (7, 8, 14, 15, 16, 21, 28, 31, 32, 35, 63, 64):
         pts |= {(1 << k) - 1, 1 << k, -(1 << k), -(1 << k) - 1}
     return sorted(p for p in pts if lo <= p <= hi)
+
+
+# ------------------------------------------------------------------ concrete evaluation of value terms (floats, durations, instants)
+class _Unknown:
+    def __repr__(self):
+        return "UNKNOWN"
+
+
+UNKNOWN = _Unknown()
+
+
+class TermRaised(Exception):
+    """The library operation the term stands for raises at this point (the value is not representable)."""
+
+
+def eval_value_term(t, x):
+    """Value of a descriptor term at the concrete point X = x, for the vocabulary the scalar readers use (integers, floats,
+    datetime.timedelta / datetime.datetime construction and arithmetic, attribute reads, comparisons).  UNKNOWN when the term uses
+    anything else; TermRaised when the standard library raises for that point (timedelta / datetime out of range).  This folds
+    constants of the analysed term with the standard library; nothing of the repository is executed."""
+    import datetime as _dt
+    import math as _math
+    if isinstance(t, list):
+        t = tuple(t)
+    if not isinstance(t, tuple) or not t:
+        return UNKNOWN
+    h = t[0]
+    if h == "X" and len(t) == 1:
+        return x
+    if h == "k" and len(t) == 2:
+        c = t[1]
+        if c is None or isinstance(c, (int, bool, float, _dt.timedelta, _dt.datetime)):
+            return c
+        if isinstance(c, str) and c.startswith(("datetime.timedelta(", "datetime.datetime(")) and c.endswith(")") \
+                and all(ch.isalnum() or ch in "=,.() -_" for ch in c):
+            try:
+                return eval(c, {"__builtins__": {}}, {"datetime": _dt})  # the repr of a constant exported to JSON
+            except Exception:  # noqa: BLE001
+                return UNKNOWN
+        return UNKNOWN
+    if h == "may-raise":
+        return UNKNOWN
+    try:
+        if h == "timedelta" and len(t) == 2:
+            kw = {}
+            for name, term in t[1]:
+                v = eval_value_term(term, x)
+                if v is UNKNOWN or name not in ("days", "seconds", "microseconds", "milliseconds", "minutes", "hours", "weeks"):
+                    return UNKNOWN
+                kw[name] = v
+            return _dt.timedelta(**kw)
+        if h == "replace" and len(t) == 3:
+            o = eval_value_term(t[1], x)
+            if not isinstance(o, _dt.datetime):
+                return UNKNOWN
+            kw = {}
+            for name, term in t[2]:
+                v = eval_value_term(term, x)
+                if v is UNKNOWN or name not in ("microsecond", "second", "tzinfo"):
+                    return UNKNOWN
+                kw[name] = v
+            return o.replace(**kw)
+        if h == "attr" and len(t) == 3:
+            o = eval_value_term(t[1], x)
+            if isinstance(o, (_dt.datetime, _dt.timedelta)) and t[2] in ("microsecond", "second", "tzinfo", "days", "seconds", "microseconds", "year"):
+                return getattr(o, t[2])
+            return UNKNOWN
+        if h == "utcoffset" and len(t) == 3:
+            arg = t[2]
+            if isinstance(arg, (list, tuple)) and len(arg) == 1 and isinstance(arg[0], (list, tuple)):
+                arg = arg[0]  # argument list of one
+            tz, o = eval_value_term(t[1], x), eval_value_term(arg, x)
+            if isinstance(tz, _dt.timezone) and isinstance(o, _dt.datetime):
+                return tz.utcoffset(o)
+            return UNKNOWN
+        if h == "timestamp" and len(t) == 2:
+            o = eval_value_term(t[1], x)
+            if isinstance(o, _dt.datetime) and o.tzinfo is not None:
+                return o.timestamp()
+            return UNKNOWN
+        args = [eval_value_term(a, x) for a in t[1:]]
+        if any(a is UNKNOWN for a in args):
+            return UNKNOWN
+        if len(args) == 2:
+            a, b = args
+            if h == "is":
+                return (a is b) if (a is None or b is None) else UNKNOWN
+            if h in ("shl", "shr") and not (isinstance(b, int) and 0 <= b <= 4096):
+                return UNKNOWN
+            f = {"add": lambda: a + b, "sub": lambda: a - b, "mul": lambda: a * b, "shl": lambda: a << b, "shr": lambda: a >> b,
+                 "and": lambda: a & b, "or": lambda: a | b, "xor": lambda: a ^ b, "floordiv": lambda: a // b, "mod": lambda: a % b,
+                 "truediv": lambda: a / b, "lt": lambda: a < b, "le": lambda: a <= b, "gt": lambda: a > b, "ge": lambda: a >= b,
+                 "eq": lambda: a == b, "ne": lambda: a != b}.get(h)
+            return UNKNOWN if f is None else f()
+        if len(args) == 1:
+            a = args[0]
+            f = {"abs": lambda: abs(a), "neg": lambda: -a, "invert": lambda: ~a, "nonzero": lambda: a != 0, "not": lambda: not a,
+                 "int": lambda: int(a), "isfinite": lambda: _math.isfinite(a), "isnan": lambda: _math.isnan(a), "isinf": lambda: _math.isinf(a),
+                 "float": lambda: float(a)}.get(h)
+            return UNKNOWN if f is None else f()
+    except (OverflowError, ValueError) as e:
+        raise TermRaised(type(e).__name__) from e
+    except (ZeroDivisionError, TypeError):
+        return UNKNOWN
+    return UNKNOWN
